@@ -6,7 +6,9 @@ FILES = ["Engine/Toposort.v", "Engine/ToposortProof.v", "Engine/Backward.v",
 RULE = ("random tapes (1..size nodes; fan-out, diamonds, f(x,x) multi-edges, constants, dead branches), "
         "random programs with branches/loops/recursion steered by traced values (the executed trace is the "
         "tape), and direct calls of autograd.util.toposort on explicit parent lists; a case is distinct by "
-        "(tape, end, g) and non-trivial when the reachable set has >= 3 nodes")
+        "(tape, end, g) and non-trivial when the reachable set has >= 3 nodes; plus random nested programs "
+        "(differentiation depth >= 2, closures over outer variables, bodies ignoring their variable) through the tagged "
+        "evaluator, whose every level runs the same toposort/backward pass")
 TRUST = ["user primitives defined through autograd.extend with integer local partials carry the graph "
          "structure; float64 arithmetic on them is exact (cases with |value| >= 2^45 are skipped)"]
 ASSUMPTIONS = ["cotangents form a commutative monoid and local rules are additive (theorem hypotheses)",
@@ -65,6 +67,14 @@ def run(res, tier, seed, broken):
     if err:
         broken = broken + [{"obligation": "implementation side failed to run", "log": err[-3000:]}]
         bad, tie = [], []
+
+    # nested differentiation: each inner backward pass must start at a node of its OWN trace and walk only the
+    # graph between its input and its output (the tagged evaluator of C08 runs L1's toposort for every level)
+    from harness import l2
+    b2, t2, e2 = l2.run_programs(res, "c03_nested", seed + 5, 1200 if big else 200, {"maxd": 3}, min_ddepth=2)
+    bad, tie = bad + b2, tie + t2
+    if e2:
+        broken = broken + [{"obligation": "implementation side (nested programs) failed to run", "log": e2[-3000:]}]
 
     def hunt():
         found = []
